@@ -104,7 +104,7 @@ pub fn judge_compile_failures(
         }
         ctx.count_eval();
         ctx.violation(
-            &format!("{what}: the program does not compile although its attribute-free twin does: {} -- in {}", f.3.lines().next().unwrap_or(""), f.0),
+            &format!("{what}: the program does not compile although its twin (the same program without the construct under test) does: {} -- in {}", f.3.lines().next().unwrap_or(""), f.0),
             &serde_json::json!({"engine": "E2", "feature_unimock": feature_unimock, "src": f.1, "twin": f.2, "summary": f.0, "expect": "compiles"}),
         );
         return (1, faults);
